@@ -76,6 +76,8 @@ pub enum PosSel {
     After(u16),
     /// right before the k-th known id
     Before(u16),
+    /// the all-zero id (the smallest there is), if it is still free
+    IdZero,
 }
 
 #[derive(Clone, Debug, PartialEq, Serialize, Deserialize)]
@@ -572,7 +574,7 @@ pub fn op_strategy(p: &Profile) -> BoxedStrategy<Op> {
     let register = ttl_any().prop_map(|ttl| Op::Register { ttl });
     let register_in = ctx_sel(p).prop_map(|ctx| Op::RegisterIn { ctx });
     let import = prop_oneof![
-        6 => (topic_of(p), ctx_sel(p), ttl_persistent(), meta_opt(p.meta), any::<bool>(), pos_sel())
+        6 => (topic_of(p), ctx_sel(p), ttl_persistent(), meta_opt(p.meta), any::<bool>(), prop_oneof![24 => pos_sel(), 1 => Just(PosSel::IdZero)])
             .prop_map(|(topic, ctx, ttl, meta, hash, pos)| ImportOp::Fresh { topic, ctx, ttl, meta, hash, pos }),
         2 => any::<u16>().prop_map(ImportOp::Again),
         3 => any::<u16>().prop_map(ImportOp::Back),
@@ -1139,6 +1141,12 @@ impl Interp {
             PosSel::Before(s) => pick(*s, self.known.len())
                 .map(|i| self.known[i].id.wrapping_sub(1))
                 .unwrap_or(1 << 91),
+            PosSel::IdZero => {
+                if !taken(0) {
+                    return 0;
+                }
+                1 << 92
+            }
         };
         while taken(v) || v == 0 {
             v = v.wrapping_add(1);
